@@ -186,6 +186,16 @@ _SCC_FILL = {"N = self.A_.shape[0]": [("N", "n")], "A = np.zeros((N, N), dtype=i
              "scc = scipy.sparse.csgraph.connected_components(A, connection='strong')[1]": [("scc", "(sccLabels A)")]}
 
 
+def _shapes_pass_slice(body):
+    """_from_json_to_shapes: everything but the log lines"""
+    return [st for st in body if not ast.unparse(st).startswith("logging.")]
+
+
+_STEP_LOCALS = {"self._locals.update({str(sym): y[i] for i, sym in enumerate(self._system_of_shapes.x_)})": [("locals_", "(Glue.updateAll locals_ (xs.zip y))")],
+                "self._locals.update(self.analytic_integrator.get_value(t))": [("locals_", "(Glue.updateAll locals_ (ana t))")],
+                "y = [self._locals[str(sym)] for sym in self.all_variable_symbols]": [("y", "(allSyms.map (fun sym => Glue.get locals_ sym))")]}
+
+
 GROUPS = {
     # ---------------------------------------------------------------------------------- C15
     "PySpikes": {
@@ -622,6 +632,109 @@ GROUPS = {
                                             "idx = np.where(scc == scc[idx])[0]": [("idxs", "(Glue.sameLabel scc N idx)")]}),
                 result_type="List Nat",
                 doc="as above; state variables are identified with their positions in `x_`; `np.where(scc == scc[idx])[0]` is `Glue.sameLabel`")),
+        ],
+    },
+    # ---------------------------------------------------------------------------------- integrator glue (C13 / C10 / C14 / C12)
+    "PyStep": {
+        "imports": ["OdeVerif.Model.PyPrelude", "OdeVerif.Model.Glue"],
+        "file": None,
+        "functions": [
+            (("odetoolbox/mixed_integrator.py", "MixedIntegrator", "step"), Spec(
+                name="mixedStep", header="{α : Type} [Inhabited α]",
+                params=[("locals_", "List (String × α)"), ("xs", "List String"), ("allSyms", "List String"), ("hasAnalytic", "Bool"),
+                        ("ana", "α → List (String × α)"), ("f", "String → List α → α"), ("t", "α"), ("y", "List α")],
+                types={"_ret": "List α"},
+                expr_map={"not self.analytic_integrator is None": "(hasAnalytic = true)",
+                          "[self._update_expr_wrapped[str(sym)](*y) for sym in self._system_of_shapes.x_]": "(xs.map (fun sym => f sym y))"},
+                stmt_map=dict(_STEP_LOCALS), try_passthrough=True, ret="(locals_, {e})", result_type="List (String × α) × List α",
+                doc="`self._locals` is an association list with Python's dict.update semantics (`Glue.updateAll`) and is part of the result (the method mutates it); "
+                    "`xs` are the names of `_system_of_shapes.x_`, `allSyms` those of `all_variable_symbols`; `analytic_integrator.get_value` is the parameter `ana` "
+                    "(C12 is about it); the compiled update expressions are `f name args`; a missing key reads as `default` (Python: KeyError)")),
+            (("odetoolbox/mixed_integrator.py", "MixedIntegrator", "numerical_jacobian"), Spec(
+                name="numericalJacobian", header="{α : Type} [Inhabited α]",
+                params=[("locals_", "List (String × α)"), ("xs", "List String"), ("allSyms", "List String"), ("hasAnalytic", "Bool"),
+                        ("ana", "α → List (String × α)"), ("J", "Nat → Nat → List α → α"), ("t", "α"), ("y", "List α")],
+                types={"dimension": "Nat", "dfdy": "Nat → Nat → α", "row": "Nat", "col": "Nat", "for:range(0, dimension)": "Nat"},
+                expr_map={"not self.analytic_integrator is None": "(hasAnalytic = true)", "len(y)": "y.length",
+                          "np.zeros((dimension, dimension), float)": "(fun _ _ => default)", "range(0, dimension)": "(List.range dimension)",
+                          "self.symbolic_jacobian_wrapped[row, col](*y)": "(J row col y)", "(dfdy, dfdt)": "dfdy"},
+                index_set={"dfdy": ("dfdy", "(Py.update2 {old} {k}.1 {k}.2 {v})")},
+                stmt_map=dict(_STEP_LOCALS, **{"dfdt = np.zeros((dimension,))": []}), ret="(locals_, {e})", result_type="List (String × α) × (Nat → Nat → α)",
+                doc="as `step`; the compiled Jacobian entries are `J row col args`; the matrix is a function of two indices (initially `default` = 0.0); `dfdt` (all zero) is dropped")),
+        ],
+    },
+    "PyUpdateStep": {
+        "imports": ["OdeVerif.Model.PyPrelude", "OdeVerif.Model.Glue"],
+        "file": None,
+        "functions": [
+            (("odetoolbox/analytic_integrator.py", "AnalyticIntegrator", "_update_step"), Spec(
+                name="updateStep", header="{α : Type} [Inhabited α]",
+                params=[("allSyms", "List String"), ("updKeys", "List String"), ("f", "String → List α → α"), ("delta_t", "α"), ("initial_values", "List (String × α)")],
+                types={"new_state": "List (String × α)", "y": "List α", "state_variable": "String", "expr": "Unit", "sym": "String",
+                       "for:self.update_expressions.items()": "(String × Unit)", "for:self.all_variable_symbols": "String"},
+                expr_map={"{}": "[]", "self.update_expressions.items()": "(updKeys.map (fun k => (k, ())))", "self.all_variable_symbols": "allSyms", "str(sym)": "sym",
+                          "self.update_expressions_wrapped[state_variable](*y)": "(f state_variable y)"},
+                stmt_map={"y = [delta_t] + [initial_values[str(sym)] for sym in self.all_variable_symbols]":
+                          [("y", "(delta_t :: allSyms.map (fun sym => Glue.get initial_values sym))")]},
+                index_set={"new_state": ("new_state", "(Glue.assoc {old} {k} {v})")},
+                result_type="List (String × α)",
+                doc="states are association lists (dictionary order matters to nobody but is kept); `allSyms` are the names of `all_variable_symbols`, `updKeys` the keys of "
+                    "`update_expressions` in order; the compiled update expressions are `f name args`")),
+        ],
+    },
+    "PyComponents": {
+        "imports": ["OdeVerif.Model.PyPrelude", "OdeVerif.Model.Glue"],
+        "file": None,
+        "functions": [
+            (("odetoolbox/system_of_shapes.py", "get_connected_component_indices"), Spec(
+                name="connectedComponentIndices", header="",
+                params=[("anz", "Nat → Nat → Bool"), ("n", "Nat"), ("ccLabels", "(Nat → Nat → Bool) → Nat → Nat")],
+                types={"A_mirrored": "Nat → Nat → Bool", "graph_components": "Nat → Nat"},
+                expr_map={"[np.where(graph_components == i)[0] for i in np.unique(graph_components)]": "(Glue.groupByLabel graph_components n)"},
+                stmt_map={"A_mirrored = (A != 0) | (A.T != 0)": [("A_mirrored", "(fun i j => anz i j || anz j i)")],
+                          "graph_components = scipy.sparse.csgraph.connected_components(A_mirrored)[1]": [("graph_components", "(ccLabels A_mirrored)")]},
+                result_type="List (List Nat)",
+                doc="every statement is NumPy / SciPy and pinned verbatim: `A != 0` is the pattern `anz`, `connected_components(.)[1]` the labelling `ccLabels` (SciPy contract), "
+                    "the grouping by label `Glue.groupByLabel` (labels in increasing order, members in increasing order)")),
+        ],
+    },
+    "PyShapesPass": {
+        "imports": ["OdeVerif.Model.PyPrelude", "OdeVerif.Model.Glue"],
+        "file": "odetoolbox/__init__.py",
+        "functions": [
+            (("_from_json_to_shapes",), Spec(
+                name="fromJsonToShapes", header="{V : Type}",
+                params=[("first", "Nat → Option (List (String × Option V)) → Glue.FirstPass"),
+                        ("perm", "List String → List String"), ("timeSymbol", "String"), ("dynamics", "List Nat"), ("parameters", "Option (List (String × Option V))")],
+                types={"shapes": "List (Nat × List String × Option (List (String × Option V)))", "all_variable_symbols": "List String", "all_parameter_symbols": "List String", "all_variable_symbols_": "List String",
+                       "shape_json": "Nat", "shape": "Glue.FirstPass", "shape2": "Nat × List String × Option (List (String × Option V))", "param": "String",
+                       "for:indict['dynamics']": "Nat", "for:all_parameter_symbols": "String"},
+                expr_map={"indict['dynamics']": "dynamics", "all_parameter_symbols": "(perm all_parameter_symbols)",
+                          "parameters is None": "(parameters.isNone = true)", "not param in parameters.keys()": "(¬ Glue.hasKey parameters param)",
+                          "(shapes, parameters)": "(shapes, parameters)"},
+                stmt_map={"all_parameter_symbols = set()": [("all_parameter_symbols", "[]")], "all_variable_symbols_ = set()": [("all_variable_symbols_", "[]")],
+                          "shape = Shape.from_json(shape_json, parameters=parameters)": [("shape", "(first shape_json parameters)")],
+                          "all_variable_symbols.extend(shape.get_state_variables())": [("all_variable_symbols", "(all_variable_symbols ++ shape.stateVars)")],
+                          "all_variable_symbols_.update(shape.get_state_variables(derivative_symbol=Config().differential_order_symbol))":
+                              [("all_variable_symbols_", "(Glue.setUnion all_variable_symbols_ shape.stateVarsMarker)")],
+                          "all_parameter_symbols.update(set(shape.reconstitute_expr().free_symbols))":
+                              [("all_parameter_symbols", "(Glue.setUnion all_parameter_symbols shape.free)")],
+                          "all_parameter_symbols -= all_variable_symbols_": [("all_parameter_symbols", "(all_parameter_symbols.filter (fun p => decide (p ∉ all_variable_symbols_)))")],
+                          "all_parameter_symbols.discard(sympy.Symbol(Config().input_time_symbol))":
+                              [("all_parameter_symbols", "(all_parameter_symbols.filter (fun p => decide (p ≠ timeSymbol)))")],
+                          "del all_variable_symbols_": [],
+                          "parameters = dict()": [("parameters", "(some [])")],
+                          "parameters[param] = None": [("parameters", "(Glue.setNone parameters param)")],
+                          "shape = Shape.from_json(shape_json, all_variable_symbols=all_variable_symbols, parameters=parameters, _debug=True)":
+                              [("shape2", "(shape_json, all_variable_symbols, parameters)")],
+                          "shapes.append(shape)": [("shapes", "(shapes ++ [shape2])")]},
+                body_filter=_shapes_pass_slice, result_type="List (Nat × List String × Option (List (String × Option V))) × Option (List (String × Option V))",
+                doc="the two passes over `indict['dynamics']`. `Shape.from_json` is the pair of parameters `first` (first pass: what is read of the shape is a "
+                    "`Glue.FirstPass` - its state variables in primed and in marker spelling and the free symbols of its reconstituted expression); the entries of "
+                    "`indict['dynamics']` are their positions; a shape of the second pass is the triple of arguments `from_json` is called with; "
+                    "Python sets are duplicate-free lists (`Glue.setUnion`, filters); the iteration order over the set of parameter symbols is the arbitrary "
+                    "re-ordering `perm`; `parameters` is `None` or a dictionary (association list) whose values are `None` or given; "
+                    "`sympy.Symbol(Config().input_time_symbol)` is the name `timeSymbol`")),
         ],
     },
     # ---------------------------------------------------------------------------------- C14
